@@ -172,6 +172,32 @@ CHECKS["C09"] = (
     "differs from task order with >= 2 workers).",
     "Completion orders are sampled, not enumerated; relies on the fork start method to carry the wrappers and "
     "their shared ticket counter into the pool workers (no source hook needed).", "3/C09")
+CHECKS["C13"] = (
+    "Hypothesis-generated id lists (runs + singletons), tables, SETs, DMIG matrices (forms 1/2/6/9, types 1-4, "
+    "grid/scalar points, partial DOF), GRID/CORD2x chains and USET tables; writer -> reader round-trip oracle "
+    "with a field-precision model",
+    "Generated-input search: every bulk-data writer is paired with its reader (wtdmig/rddmig, wtgrids/rdgrids, "
+    "wttabled1/rdtabled1, wtset/rdsets, wtspoints/rdspoints, wtcsuper/rdcsupers, wtextrn/rdextrn, "
+    "wtcoordcards/rdcord2cards, uset2bulk/bulk2uset) over lists of every length mod 8 / mod 4, "
+    "THRU-compressible runs, wrapped SET lines, tables of 1..n points in both field widths and values across "
+    "the representable range; identifiers, order, DOF labels and values (to the precision of the written "
+    "format) must come back.",
+    "Values are restricted to those the written format represents in its field; DMIG matrices are exactly "
+    "symmetric or clearly unsymmetric (the writer's allclose symmetry test is a documented design choice).",
+    "3/C13")
+CHECKS["C16"] = (
+    "model-based testing over update/case/event histories generated by Hypothesis; oracle = brute-force "
+    "envelope over the stored per-case responses with a validity predicate for ties, and an independent "
+    "transcription of the documented apply_uf table",
+    "Generated-input search: sequences of cla.extrema/maxmin updates (ties, NaNs, one- and two-column data, "
+    "with/without abscissae) and full time/frf/psd data recovery through DR_Def/DR_Event/DR_Results over 1..6 "
+    "cases in random order, then form_extreme/merge over 1..3 events with random case_order: maxima, minima, "
+    "case labels and abscissae (any attaining case is accepted on ties), per-case columns, histories and SRS "
+    "envelopes are compared with brute force; apply_uf is compared with a transcription of its documented "
+    "table over histories of calls sharing one cache, checking independence of cache reuse and call order and "
+    "that inputs are not modified.",
+    "Per-case SRS values are taken from pyyeti.srs (decided by C03); only the bookkeeping is decided here. "
+    "Re-labelling of split() parts (documented to carry maxcase=None) is outside the property.", "3/C16")
 
 NOT_APPLICABLE = {
 }
